@@ -35,6 +35,18 @@ noncomputable def primeCount (lo hi : Nat) : Nat := countIn Nat.Prime lo hi
 noncomputable def tupletCount (ds : List Nat) (lo hi : Nat) : Nat :=
   countIn (fun p => p + span ds ≤ hi ∧ tupletAt ds p) lo hi
 
+open Classical in
+/-- the constellations of kind `kind` inside [lo, hi], ordered by first member, each written out
+    as the list of its members -/
+noncomputable def tupletList (kind lo hi : Nat) : List (List Nat) :=
+  (List.range' lo (hi + 1 - lo)).flatMap (fun p =>
+    ((patterns kind).filter (fun ds => decide (p + span ds ≤ hi ∧ tupletAt ds p))).map
+      (fun ds => ds.map (p + ·)))
+
+/-- what the counter of kind i (0 = primes, 1 = twins, … 5 = sextuplets) must equal -/
+noncomputable def kindCount (i lo hi : Nat) : Nat :=
+  if i = 0 then primeCount lo hi else ((patterns i).map (fun ds => tupletCount ds lo hi)).sum
+
 theorem countIn_empty (P : Nat → Prop) {lo hi : Nat} (h : hi < lo) : countIn P lo hi = 0 := by
   unfold countIn
   have : hi + 1 - lo = 0 := by omega
